@@ -26,6 +26,8 @@ def oracle_dd(run):
         return None
     cfg = evs[0][1]
     cb = cfg[3] == "1"
+    single = cfg[2] != "1"   # DelayedDestructorSingleThread: no lock events; a "critical section" is the silent code
+                             # right after call destroy* / slp / yld of the calling thread
     nshared, nthreads = int(cfg[4]), int(cfg[5])
     held = {k: nthreads for k in range(nshared)}     # script-held references
     made = set(range(nshared)) if nthreads else set()
@@ -50,7 +52,7 @@ def oracle_dd(run):
         elif k == "call":
             if t[1] == "addm":
                 held[int(t[2])] -= 1
-            st.append(dict(op=t[1], cs=None, thrown=False, first=None, lens=[]))
+            st.append(dict(op=t[1], cs=(i if single and t[1] in DESTROY else None), thrown=False, first=None, lens=[]))
         elif k == "ret":
             if not st or st[-1]["op"] != t[1]:
                 return "ret %s does not match the thread's innermost call" % t[1]
@@ -67,6 +69,8 @@ def oracle_dd(run):
             locked[tid] = False
             if top is not None:
                 top["cs"] = i
+        elif single and k in ("slp", "yld") and top is not None:
+            top["cs"] = i
         elif k in ("ucb", "pdt"):
             o = int(t[1])
             if locked.get(tid):
@@ -110,10 +114,17 @@ def oracle_dd(run):
     for i, (tid, t) in enumerate(evs):
         k = t[0]
         st = stack.setdefault(tid, [])
+        if single and i in removed:
+            L -= len(removed[i])
         if k == "call":
             if t[1] == "dtor":
                 break
             st.append(dict(op=t[1], lens=[], first=None))
+            if single:
+                if t[1] in ("add", "addm"):
+                    L += 1
+                st[-1]["lens"].append(L)
+                st[-1]["first"] = True
         elif k in ("ucb", "pdt"):
             st.append(dict(op=k, lens=[], first=None))
         elif k in ("uce", "uth", "pde"):
@@ -128,8 +139,14 @@ def oracle_dd(run):
             L -= len(removed.get(i, ()))
             if st:
                 st[-1]["lens"].append(L)
+        elif single and k == "slp" and st:
+            st[-1]["lens"].append(L)
         elif k == "ret":
             f = st.pop()
+            if single:
+                f["lens"].append(L)
+                if t[1] == "size":
+                    f["lens"] = [L]
             if t[1] == "size" and [int(t[2])] != f["lens"][-1:]:
                 return "size() returned %s, vector length at its critical section was %s" % (t[2], f["lens"][-1:])
             if t[1] in ("destroy", "destroyd"):
@@ -165,7 +182,11 @@ DD_TIE = (" The model is tied to the source on every run: the unmodified header 
 
 def register(PROPS, COMPONENTS):
     COMPONENTS["dd"] = dict(client="dd", driver="dd", directed_runs=6, quick_runs=1600, thorough_runs=40000, oracle=oracle_dd,
-                            cov_headers=["gmlc/concurrency/DelayedDestructor.hpp"])
+                            cov_headers=["gmlc/concurrency/DelayedDestructor.hpp"],
+                            # the catch (...) of the two destructors is dead code: everything inside their try blocks is
+                            # noexcept (destroyObjects) or cannot throw (yield, sleep_for).  The catch (...) of
+                            # destroyObjects has the same text; it is exercised by the `uth` model edges, which are mandatory.
+                            cov_allow=[r"^\s*catch \(\.\.\.\) \{$"])
     PROPS["C16"] = dict(
         lean_files=["ConcVerif/Props/C16.lean"], components=["dd"], stage="A",
         level_text="Lean 4 theorems (kernel-checked; unbounded threads, objects, calls, interleavings, lock time-outs, re-entrant "
